@@ -41,25 +41,20 @@ Proof.
   - apply NB; auto. cbn [do_op] in H. destruct (flush_core st gs r st' C H Hr) as [C' _]. eauto.
   - apply NB; auto. eapply op_nested_core; eauto.
   - (* Session.commit *)
-    cbn [do_op] in H. unfold guard in Hg. cbn in Hg.
+    cbn [do_op] in H.
     destruct (autobegin_core st gs C) as [gs1 [C1 [A1 A2]]].
-    assert (HP : PD (hdA (autobegin st)) (map fks (tl (stack (autobegin st))))).
-    { destruct (stack st) as [|f rest] eqn:Es.
-      - destruct (A2 eq_refl) as [f [X _]]. rewrite X. exact I.
-      - destruct (A1 ltac:(discriminate)) as [_ X]. rewrite X, Es. cbn [tl].
-        unfold g2_all in Hg. rewrite Es in Hg. apply (guard_PD st gs f rest C); eauto. }
     assert (Hl : length (stack (autobegin st)) < S (S (length (stack st)))).
     { unfold autobegin. destruct (stack st) eqn:Es; cbn; rewrite ?Es; cbn; lia. }
-    destruct (commit_all_core _ _ gs1 r st' C1 HP Hl H Hr) as [gs' [C' B]].
+    destruct (commit_all_core _ _ gs1 r st' C1 Hl H Hr) as [gs' [C' B]].
     split; [eauto|]. intros _ Y. apply B; auto.
   - cbn [do_op] in H.
     destruct (rollback_all_core (S (length (stack st))) st gs C) as (s2 & E & C2 & _ & Cl2 & _); [lia|].
     rewrite E in H. inversion H; subst. eauto.
   - (* handle.commit() *)
-    cbn [do_op] in H. unfold guard in Hg. cbn in Hg.
+    cbn [do_op] in H.
     destruct (nth_error (handles st) h) as [[n|]|] eqn:En;
       [|inversion H; subst; split; [eauto|intros _ Y; discriminate]|inversion H; subst; congruence].
-    destruct (t_commit_core st gs n r st' C Hg H Hr) as [gs' [C' [B _]]]. split; eauto.
+    destruct (t_commit_core st gs n r st' C H Hr) as [gs' [C' [B _]]]. split; eauto.
   - (* handle.rollback() *)
     cbn [do_op] in H. unfold guard in Hg. cbn in Hg.
     destruct (nth_error (handles st) h) as [[n|]|] eqn:En;
